@@ -292,7 +292,15 @@ def main():
     ctx.build = b
     violations = []      # (message, replay_path or None, found_input: bool)
     if not b["translator"][0]:
-        violations.append(("translator no longer understands the source tables: " + b["translator"][1][-400:], None, False))
+        # the generated tables are the tie for C13 (errorcodes.rs) and for the constants of C01 / C04 (packet.rs);
+        # the other properties do not rest on them (the last good tables stay in place for the build)
+        tmsg = b["translator"][1]
+        parts = set(re.findall(r"UNSUPPORTED (\w+):", tmsg)) or {"errorcodes", "packet"}
+        needs = {"C13": "errorcodes", "C01": "packet", "C04": "packet"}.get(prop)
+        if needs in parts:
+            violations.append(("translator no longer understands the source tables: " + tmsg[-400:], None, False))
+        else:
+            say("note: translator does not understand %s any more (not part of this property's tie): %s" % (sorted(parts), tmsg[-200:].strip()))
     if not b["harness"][0]:
         say("harness build failed:\n" + b["harness"][1])
         violations.append(("harness does not build against the current tree: " + b["harness"][1][-600:], None, False))
@@ -347,6 +355,7 @@ def main():
             "evaluations": corr["evaluations"], "distinct_nontrivial": corr["distinct_nontrivial"],
             "rule": getattr(mod, "RULE", ""), "samples": corr["samples"][:6],
             "input_distribution": corr["hist"], "correspondence_mismatches": corr["mismatches"],
+            "write_granularity_only_differences": corr.get("granularity_only", 0),
             "oracle_failures": corr["oracle_failures"], "exhaustive": bool(corr.get("exhaustive", False)),
             "known_findings_reproduced": known_hits,
             "build_seconds": b.get("build_s"),
@@ -425,7 +434,12 @@ def run_corpus(ctx):
         ctx.corr["evaluations"] += 1
         if section == "fixed":
             res = a[-1]
-            if a != m or res.startswith("result|panic") or res == "result|hang":
+            differ = canon_obs(a) != canon_obs(m)
+            if differ and re.search(r"^fault (once|from)", c.text, re.M) and a[-1] == m[-1]:
+                # a replay with a transport fault addressed by operation index: only the result is comparable
+                # when the code cuts its output into transport writes differently than the model
+                differ = False
+            if differ or res.startswith("result|panic") or res == "result|hang":
                 ctx.violation("a repaired defect has returned (%s): impl %s, model %s" % (e["what"][:120], a[-1], m[-1]),
                               c.render(), name="regress")
         else:
@@ -507,7 +521,11 @@ class Ctx:
                 corr["oracle_failures"] += 1
                 self.violation("specification oracle fails on the implementation's output: %s (case %s)" % (msg, c.id),
                                c.render(), name="oracle", key=key)
-            if a != m:
+            if a != m and canon_obs(a) == canon_obs(m):
+                # same bytes, same order relative to reads / flushes / callbacks; only the way the bytes are cut
+                # into transport write() calls (or a repeated flush) differs: not observable by any property
+                corr["granularity_only"] = corr.get("granularity_only", 0) + 1
+            elif a != m:
                 corr["mismatches"] += 1
                 if not fails:
                     k = first_diff(a, m)
@@ -569,6 +587,19 @@ def generic_replay(ctx, path):
             say("   model: %s" % y[:300])
     if a != m:
         ctx.violation("replay: model and implementation disagree", c.render(), name="replay", found=True)
+
+
+def canon_obs(obs):
+    """merge adjacent transport writes, drop a flush that directly follows a flush"""
+    out = []
+    for l in obs:
+        if l.startswith("w|") and out and out[-1].startswith("w|"):
+            out[-1] += l[2:]
+        elif l == "flush" and out and out[-1] == "flush":
+            continue
+        else:
+            out.append(l)
+    return out
 
 
 def first_diff(a, b):
